@@ -1,15 +1,16 @@
 #!/bin/sh
 # Apply every archived behaviour-preserving refactoring (harmless/*/patch.diff) to a scratch worktree of /repo and run all
 # 20 quick checks there: any non-zero exit is a false alarm of the machinery.  Writes harmless/REGRESSION.txt.
+# CHECKS="08 14" restricts the checks, OUT=<file> redirects the record.
 cd "$(dirname "$0")/.." || exit 2
 wt=$(mktemp -d /tmp/harmreg.XXXXXX)
 git -C /repo worktree add --detach "$wt" HEAD -q || exit 2
-out=harmless/REGRESSION.txt
+out=${OUT:-harmless/REGRESSION.txt}
 : > $out
 for d in harmless/h*/; do
   name=$(basename $d)
   if git -C "$wt" apply "$(pwd)/$d/patch.diff" 2>/dev/null; then
-    for c in 01 02 03 04 05 06 07 08 09 10 11 12 13 14 15 16 17 18 19 20; do
+    for c in ${CHECKS:-01 02 03 04 05 06 07 08 09 10 11 12 13 14 15 16 17 18 19 20}; do
       res=$(HPL_REPO="$wt" ./check C$c --tier quick 2>&1 | grep -E "VIOLATION|done rc=" | tr '\n' ' ' | cut -c1-200)
       case "$res" in *"rc=0"*) verdict=QUIET;; *) verdict=ALARM;; esac
       echo "$verdict $name C$c :: $res" | tee -a $out
